@@ -719,11 +719,13 @@ def run_models(rep, tier, d):
         for name, (n, depth) in sl.items():
             ni, di = isl[name]
             futs[("intended", name)] = ex.submit(
-                tlc.run_tlc, SPEC, _cfg(d, f"i_{name}", name, ni, di), workers=4, deadlock=False, heap="4g", env=_jvm(4),
-                keep_output=False)
+                tlc.run_tlc, SPEC, _cfg(d, f"i_{name}", name, ni, di), workers=8 if tier == "thorough" else 4, deadlock=False,
+                heap="8g" if tier == "thorough" else "4g", env=_jvm(4), keep_output=False, timeout=5400)
+            big = tier == "thorough" and name in ("scope", "kinds4", "deco")
             futs[("rows", name)] = ex.submit(
                 tlc.run_tlc, SPEC, _cfg(d, f"r_{name}", name, n, depth, legacy=LEGACY, emit=True, invs=EMIT_INVS),
-                workers=4, deadlock=False, heap="4g", env=_jvm(4), keep_output=False)
+                workers=8 if big else 4, deadlock=False, heap="8g" if big else "4g", env=_jvm(4), keep_output=False,
+                timeout=5400)
         for cname, cn, cd in COVERAGE_RUNS:
             futs[("coverage", cname)] = ex.submit(
                 tlc.run_tlc, SPEC, _cfg(d, f"c_{cname}", cname, cn, cd), workers=1, coverage=True, deadlock=False,
@@ -1419,6 +1421,7 @@ def replay(rep, path):
     rep.nontrivial("replayed-case")
     rep.nontrivial("replayed-case-2")
     finds.report(rep)
+    rep.note(f"replayed {case['kind']} case: {len(finds.by_key)} violation class(es), {rep.evaluations} comparison(s)")
 
 
 if __name__ == "__main__":
